@@ -15,7 +15,7 @@ THEOREMS = ["Pyro.C10.C10_gen_facts", "Pyro.C10.C10_gen_removal_tolerant", "Pyro
             "Pyro.C10.C10_forget_conditions", "Pyro.C10.C10_resume", "Pyro.C10.C10_quiescent", "Pyro.C10.C10_expiry_empties",
             "Pyro.C10.C10_client_refines", "Pyro.C10.C10_client_exact", "Pyro.C10.C10_client_close_forgets",
             "Pyro.C10.C10_sched_prefix", "Pyro.C10.C10_sched_no_masking", "Pyro.C10.C10_sched_strict_masks",
-            "Pyro.C10.C10_sched_cleanup_total", "Pyro.C10.C10_housekeeping_serial"]
+            "Pyro.C10.C10_sched_cleanup_total", "Pyro.C10.C10_housekeeping_serial", "Pyro.Lock.atomic"]
 SUITES = ["histories", "interleavings"]
 RULE = ("(a) histories of <= 45 operations over 1-3 proxies / up to 6 streams on the REAL Daemon, DaemonObject and "
         "_StreamResultIterator (virtual clock, fake connections): call returning an iterator (custom iterator class, generator, "
@@ -553,6 +553,10 @@ class Spec:
     def __init__(self, cfg):
         self.cfg = cfg
         self.streams = {}     # k -> dict(source, delivered, owner, created, linger, alive)
+        self.cover = {}       # which clauses of the property this history exercised
+
+    def hit(self, what):
+        self.cover[what] = self.cover.get(what, 0) + 1
 
     def open(self, k, items, conn, now):
         self.streams[k] = dict(source=items, delivered=0, owner=conn, created=now, linger=None, alive=True)
@@ -563,6 +567,9 @@ class Spec:
             return "error"
         if s["owner"] is None:          # reconnect before the stream was forgotten: continues
             s["owner"], s["linger"] = conn, None
+            self.hit("resume-lingering")
+        elif s["owner"] != conn:
+            self.hit("next-from-foreign-connection")
         if s["delivered"] >= len(s["source"]):
             s["alive"] = False
             return "stop"
@@ -575,6 +582,8 @@ class Spec:
 
     def close(self, k):
         if k in self.streams:
+            if self.streams[k]["alive"]:
+                self.hit("forget:close")
             self.streams[k]["alive"] = False
 
     def disconnect(self, conn, now):
@@ -582,8 +591,10 @@ class Spec:
             if s["alive"] and s["owner"] == conn:
                 if self.cfg["linger"] > 0:
                     s["owner"], s["linger"] = None, now
+                    self.hit("disconnect-lingers")
                 else:
                     s["alive"] = False
+                    self.hit("forget:disconnect-no-linger")
 
     def housekeeping(self, now):
         lt, lg = self.cfg["lifetime"], self.cfg["linger"]
@@ -592,8 +603,12 @@ class Spec:
                 continue
             if lt > 0 and now - s["created"] > lt:
                 s["alive"] = False
+                self.hit("forget:lifetime")
             elif lg > 0 and s["linger"] is not None and now - s["linger"] > lg:
                 s["alive"] = False
+                self.hit("forget:linger-expired")
+            elif s["linger"] is not None:
+                self.hit("housekeeping-keeps-lingering")
 
     def alive(self):
         return sorted(k for k, s in self.streams.items() if s["alive"])
@@ -672,7 +687,11 @@ def run_history_real(world, h, ctx=None, judge=True):
                     res = "item%d" % v
                     stats["items"] += 1
                 elif k == "iclose":
+                    nc = world.next_conn
+                    live = iters[op[1]].proxy is not None and iters[op[1]].proxy._pyroConnection is not None
                     iters[op[1]].close()
+                    if live:
+                        spec.hit("close:second-connection(seq diverged)" if world.next_conn != nc else "close:same-proxy")
                     res = "none"
                 elif k == "pcall":
                     proxies[op[1]].ping()
@@ -741,6 +760,9 @@ def run_history_real(world, h, ctx=None, judge=True):
         out += " | " + (",".join("%s/%d/%d" % ("n" if it.proxy is None else proxies.index(it.proxy), it.pyroseq, iter_stream[i])
                                  for i, it in enumerate(iters)) or "-")
         out += " | %d" % world.server_events
+        stats["cover"] = spec.cover
+        if any(p._pyroSeq < h["seq0"] for p in proxies):
+            spec.hit("sequence-number-wrapped")
         return out, fails, stats
     finally:
         world.next, world.close, world.disconnect, world.open = orig_next, orig_close, orig_disc, orig_open
@@ -785,6 +807,8 @@ def _histories(ctx, n, judge_only=False):
             ctx.count("hist:lifetime%s/linger%s" % ("+" if h["cfg"]["lifetime"] > 0 else "0", "+" if h["cfg"]["linger"] > 0 else "0"))
             for r in out.split(" | ")[0].split(";"):
                 ctx.count("reply:" + r.rstrip("0123456789"))
+            for k, v in stats["cover"].items():
+                ctx.count("cover:" + k, v)
             if (stats["items"] >= 2 and stats["forgot_other"] >= 1) or stats["max_open"] >= 2:
                 ctx.nontriv(line)
             if stats["forgot_other"] and stats["items"] >= 3:
@@ -801,19 +825,29 @@ def _histories(ctx, n, judge_only=False):
 
 
 def correspondence(ctx):
+    """C and D in one loop: every generated history / explored schedule is executed once on the real code; its canonical
+    output is compared with the model (C) and judged against the property by the model-independent checks (D)."""
     common.repo_on_path()
+    from props import c10_race
     _histories(ctx, ctx.n(2500, 60000))
+    c10_race.interleavings(ctx, corr=True)
+    ctx._c10_judged = True
 
 
 def oracle(ctx):
     common.repo_on_path()
-    if ctx.search_mode:
+    from props import c10_race
+    if not getattr(ctx, "_c10_judged", False) or ctx.search_mode:
+        # the model did not build (no correspondence run), or something is broken: judge the real code on its own
         _histories(ctx, ctx.n(1500, 20000), judge_only=True)
+        c10_race.interleavings(ctx, corr=False)
+        ctx._c10_judged = True
 
 
 def replay(ctx, case):
+    from props import c10_race
     f = case.get("failing_input") or {}
-    c = f.get("case") or {}
+    c = f.get("case") or (case if "kind" in case else {})
     print(json.dumps(f, indent=1)[:3000])
     if c.get("kind") == "history":
         world, restore = make_world()
@@ -825,5 +859,7 @@ def replay(ctx, case):
             return 1 if fails else 0
         finally:
             restore()
+    if c.get("kind") == "race":
+        return c10_race.replay_case(c)
     print(json.dumps(case.get("no_longer_checks")))
     return 1 if f else 0
